@@ -536,8 +536,20 @@ def first_sig(ef, why=""):
     """signature for an observation on the whole document; `why` (the first difference found) selects the class when it names one"""
     s = file_signatures(ef)
     f10 = SIG_PREFIX + "sig-contents-without-type"
+    f11 = SIG_PREFIX + "key-cache-ignores-aes"
     if f10 in s and "/Contents" in why:
         return f10
+    m = re.match(r"(\d+) 0 R", why)
+    if m:
+        # the difference names an object of the plaintext document: the class of that object's leaves decides
+        ls = [l for l in ef.leaves if l["num"] == int(m.group(1))]
+        for l in ls:
+            sg = leaf_signature(ef, l)
+            if sg:
+                return sg
+        if any(f11_class(ef, l) for l in ls):
+            return f11
+    s = [x for x in s if x != f11] + [x for x in s if x == f11]
     return s[0] if s else ""
 
 
